@@ -98,6 +98,11 @@ fn finish<'gc>(name: String, erased: Gc<'gc, ()>, size: usize, align: usize, reg
     if blocks.len() != 1 {
         errs.push(format!("{name}: the allocating call made {} allocations, expected exactly one", blocks.len()));
     }
+    // the allocator only promises the requested alignment: the value is aligned for every conforming
+    // allocator only if the request covers the value's alignment and the offset is a multiple of it
+    if info.align < align || (addr - block) % align != 0 {
+        errs.push(format!("{name}: block requested with alignment {} holds a value of alignment {align} at offset {}: not aligned under every conforming allocator", info.align, addr - block));
+    }
     obs::watch(block, addr);
     // the bookkeeping in front of the value must fit between the block start and the value
     if addr - block < 16 {
@@ -165,6 +170,11 @@ pub fn alloc_slice<'gc, const S: usize, A: Copy + Default + 'static>(mc: &'gc Mu
     if back.len() != len || !Gc::ptr_eq(back, g) {
         errs.push(format!("{name}: from_ptr(as_ptr) changed the slice"));
     }
+    let rt = unsafe { Gc::as_fat(Gc::<[Blob<S, A>], _>::from_thin_ptr_with_kind(Gc::as_thin_ptr(thin))) };
+    let rt: GcSlice<'gc, Blob<S, A>> = rt;
+    if rt.len() != len || !Gc::ptr_eq(rt, g) || Gc::as_thin_ref(thin) as *const _ as *const () != Gc::as_ptr(g) as *const () {
+        errs.push(format!("{name}: raw thin pointer round trip gives length {} or another address", rt.len()));
+    }
     let regions = (0..len).map(|k| (k * stride, S, k * S)).collect();
     finish(name, Gc::erase(g), size, std::mem::align_of::<Blob<S, A>>(), regions, seed, false, blocks, errs)
 }
@@ -182,6 +192,10 @@ pub fn alloc_str<'gc>(mc: &'gc Mutation<'gc>, len: usize, seed: u64, errs: &mut 
     let fat = Gc::as_fat(thin);
     if &*thin != s.as_str() || fat.len() != len || !Gc::ptr_eq(fat, g) {
         errs.push(format!("{name}: thin/fat round trip changed the string"));
+    }
+    let rt: GcStr<'gc> = unsafe { Gc::as_fat(Gc::<str, _>::from_thin_ptr_with_kind(Gc::as_thin_ptr(thin))) };
+    if &*rt != s.as_str() || !Gc::ptr_eq(rt, g) {
+        errs.push(format!("{name}: raw thin pointer round trip changed the string"));
     }
     // pattern regions: one per byte would be wasteful; verify through a dedicated base
     let regions = vec![(0usize, len, usize::MAX)];
@@ -213,6 +227,10 @@ pub fn alloc_swh<'gc, const HS: usize, HA: Copy + Default + 'static, const ES: u
     let fat = Gc::as_fat(thin);
     if thin.slice.len() != len || fat.slice.len() != len || !Gc::ptr_eq(fat, g) || Gc::as_thin_ptr(thin) as usize != base {
         errs.push(format!("{name}: thin/fat round trip gives length {} / {} or another address", thin.slice.len(), fat.slice.len()));
+    }
+    let rt = unsafe { Gc::as_fat(Gc::<gc_arena::SliceWithHeader<Blob<HS, HA>, Blob<ES, EA>>, _>::from_thin_ptr_with_kind(Gc::as_thin_ptr(thin))) };
+    if rt.slice.len() != len || !Gc::ptr_eq(rt, g) || Gc::as_thin_ref(thin) as *const _ as *const () as usize != base {
+        errs.push(format!("{name}: raw thin pointer round trip gives length {} or another address", rt.slice.len()));
     }
     let mut regions = vec![(0usize, HS, 0usize)];
     regions.extend((0..len).map(|k| (slice_off + k * stride, ES, HS + k * ES)));
@@ -255,8 +273,17 @@ pub fn alloc_custom<'gc, X: Copy + Send + Default + 'static>(mc: &'gc Mutation<'
     let meta = LenAnd { x: X::default(), len, check: 0xC0FF_EE00 ^ len as u32 };
     obs::capture_on();
     let g: Gc<'gc, [u8], GcKind<Fat, (), PadMeta<X>>> = unsafe {
-        let mut b = GcBuilder::<[u8], (), PadMeta<X>>::new_with_type_and_ptr_meta::<UnitTypeMeta>(meta);
+        let b = GcBuilder::<[u8], (), PadMeta<X>>::new_with_type_and_ptr_meta::<UnitTypeMeta>(meta);
+        // the builder survives a trip through its raw pointer
+        let raw = b.into_raw();
+        if raw.len() != len {
+            errs.push(format!("{name}: GcBuilder::into_raw gives length {}", raw.len()));
+        }
+        let mut b = GcBuilder::<[u8], (), PadMeta<X>>::from_raw(raw);
         let p = b.as_ptr() as *mut u8;
+        if p != raw as *mut u8 {
+            errs.push(format!("{name}: GcBuilder::from_raw(into_raw) moved the allocation"));
+        }
         for i in 0..len {
             p.add(i).write(pat(seed, i));
         }
@@ -270,6 +297,10 @@ pub fn alloc_custom<'gc, X: Copy + Send + Default + 'static>(mc: &'gc Mutation<'
     let fat = Gc::as_fat(thin);
     if thin.len() != len || fat.len() != len || !Gc::ptr_eq(fat, g) {
         errs.push(format!("{name}: thin/fat round trip gives length {} / {}", thin.len(), fat.len()));
+    }
+    let rt = unsafe { Gc::as_fat(Gc::<[u8], GcKind<gc_arena::gc::Thin, (), PadMeta<X>>>::from_thin_ptr_with_kind(Gc::as_thin_ptr(thin))) };
+    if rt.len() != len || !Gc::ptr_eq(rt, g) {
+        errs.push(format!("{name}: raw thin pointer round trip gives length {}", rt.len()));
     }
     finish(name, Gc::erase(g), len, 1, vec![(0, len, 0)], seed, false, blocks, errs)
 }
